@@ -183,7 +183,146 @@ def evalBoth (c : Ctx) (script : Script) (d : TraceDb) : String :=
     (if sortBy bytesLe sql == sortBy bytesLe spec ∧ sql.length == (dedup sql).length ∧ okLim then "OK" else "DIFF") ++
       " sql:" ++ idsOut sql ++ " spec:" ++ idsOut spec
 
+/-! ### the statement as the REAL planner built it: the Go object tree, serialised by the harness -/
+abbrev PE (α : Type) := List String → Option (α × List String)
+
+def nTimes {α} (f : PE α) : Nat → PE (List α)
+  | 0, toks => some ([], toks)
+  | k + 1, toks => do
+    let (x, r) ← f toks
+    let (xs, r') ← nTimes f k r
+    some (x :: xs, r')
+
+mutual
+def pExpr : Nat → PE Expr
+  | 0, _ => none
+  | fuel + 1, toks =>
+    match toks with
+    | "r" :: h :: rest => do some (.raw (← str? h), rest)
+    | "s" :: h :: rest => do some (.str (← ofHex h), rest)
+    | "i" :: n :: rest => do some (.int (← n.toInt?), rest)
+    | "n" :: h :: rest => do some (.numLit (← str? h), rest)
+    | "w" :: h :: rest => do some (.withRef (.named (← str? h)), rest)
+    | "ai" :: h :: rest => do some (.anyIfNum (← ofHex h), rest)
+    | "c" :: h :: rest => do let (e, r) ← pExpr fuel rest; some (.col e (← str? h), r)
+    | "d" :: rest => do let (e, r) ← pExpr fuel rest; some (.distinct e, r)
+    | "o" :: dir :: rest => do let (e, r) ← pExpr fuel rest; some (.orderBy e (if dir = "asc" then .asc else .desc), r)
+    | "aj" :: rest => do
+      let (a, r) ← pExpr fuel rest
+      let (b', r') ← pExpr fuel r
+      some (.arrayJoin a b', r')
+    | "in" :: rest => do
+      let (l, r) ← pExpr fuel rest
+      match r with
+      | k :: r1 => do let (es, r2) ← pExprs fuel (← k.toNat?) r1; some (.isIn l es, r2)
+      | _ => none
+    | "l" :: h :: k :: rest => do let (es, r) ← pExprs fuel (← k.toNat?) rest; some (.logical (← str? h) es, r)
+    | "t" :: h :: k :: rest => do let (es, r) ← pExprs fuel (← k.toNat?) rest; some (.callT (← str? h) es, r)
+    | "f" :: h :: k :: rest => do let (es, r) ← pExprs fuel (← k.toNat?) rest; some (.call (← str? h) es, r)
+    | "b" :: h :: k :: rest => do let (es, r) ← pExprs fuel (← k.toNat?) rest; some (.bitSet es (← str? h), r)
+    | "u" :: h :: k :: rest => do let (ss, r) ← pSels fuel (← k.toNat?) rest; some (.setOp (← str? h) ss, r)
+    | _ => none
+def pExprs : Nat → Nat → PE (List Expr)
+  | 0, _, _ => none
+  | _, 0, toks => some ([], toks)
+  | fuel + 1, k + 1, toks => do
+    let (x, r) ← pExpr fuel toks
+    let (xs, r') ← pExprs fuel k r
+    some (x :: xs, r')
+def pOpt : Nat → PE (Option Expr)
+  | 0, _ => none
+  | fuel + 1, toks =>
+    match toks with
+    | "0" :: rest => some (none, rest)
+    | "1" :: rest => do let (e, r) ← pExpr fuel rest; some (some e, r)
+    | _ => none
+def pSel : Nat → PE Sel
+  | 0, _ => none
+  | fuel + 1, toks =>
+    match toks with
+    | "S" :: kw :: rest => do
+      let (ws, r) ← pWiths fuel (← kw.toNat?) rest
+      match r with
+      | dist :: kc :: r1 => do
+        let (cols, r2) ← pExprs fuel (← kc.toNat?) r1
+        let (fr, r3) ← pOpt fuel r2
+        match r3 with
+        | kj :: r4 => do
+          let (js, r5) ← pJoins fuel (← kj.toNat?) r4
+          let (pre, r6) ← pOpt fuel r5
+          let (wh, r7) ← pOpt fuel r6
+          match r7 with
+          | kg :: r8 => do
+            let (gb, r9) ← pExprs fuel (← kg.toNat?) r8
+            let (hv, r10) ← pOpt fuel r9
+            match r10 with
+            | ko :: r11 => do
+              let (ob, r12) ← pExprs fuel (← ko.toNat?) r11
+              let (lim, r13) ← pOpt fuel r12
+              some (.mk ws (dist = "1") cols fr js pre wh gb hv ob lim, r13)
+            | _ => none
+          | _ => none
+        | _ => none
+      | _ => none
+    | _ => none
+def pSels : Nat → Nat → PE (List Sel)
+  | 0, _, _ => none
+  | _, 0, toks => some ([], toks)
+  | fuel + 1, k + 1, toks => do
+    let (x, r) ← pSel fuel toks
+    let (xs, r') ← pSels fuel k r
+    some (x :: xs, r')
+def pWiths : Nat → Nat → PE (List (Alias × Sel))
+  | 0, _, _ => none
+  | _, 0, toks => some ([], toks)
+  | fuel + 1, k + 1, toks =>
+    match toks with
+    | h :: rest => do
+      let (x, r) ← pSel fuel rest
+      let (xs, r') ← pWiths fuel k r
+      some ((.named (← str? h), x) :: xs, r')
+    | _ => none
+def pJoins : Nat → Nat → PE (List (String × Alias × Expr))
+  | 0, _, _ => none
+  | _, 0, toks => some ([], toks)
+  | fuel + 1, k + 1, toks =>
+    match toks with
+    | tp :: al :: rest => do
+      let (on, r) ← pExpr fuel rest
+      let (xs, r') ← pJoins fuel k r
+      some ((← str? tp, .named (← str? al), on) :: xs, r')
+    | _ => none
+end
+
+def selNoLimit : Sel → Sel
+  | .mk ws d c f j p w g h o _ => .mk ws d c f j p w g h o none
+def selLimitOf : Sel → Option Expr
+  | .mk _ _ _ _ _ _ _ _ _ _ l => l
+
+/-- the REAL `index_grouped` select (object tree of the Go planner): its rendering must be the real text;
+    then its Sql.SemG reading is compared with the direct reading of the script -/
+def evalReal (c : Ctx) (script : Script) (d : TraceDb) (ast : String) (text : Bytes) : String :=
+  let toks := ast.splitOn ","
+  match pSel (toks.length + 1) toks with
+  | some (sel, []) =>
+    if renderSel sel != text then "BADAST"
+    else
+      let sql := traceIdsOf (evalSelG orc aorc (d.toDb c) true [] (selNoLimit sel))
+      let spec := matchingTraces orc aorc c d script
+      let lim := traceIdsOf (evalSelG orc aorc (d.toDb c) true [] sel)
+      let okLim : Bool := match selLimitOf sel with
+        | some (Expr.int n) => lim == sql.take n.toNat
+        | _ => lim == sql
+      (if sortBy bytesLe sql == sortBy bytesLe spec ∧ sql.length == (dedup sql).length ∧ okLim then "OK" else "DIFF") ++
+        " sql:" ++ idsOut sql ++ " spec:" ++ idsOut spec
+  | _ => "BADAST"
+
 def handle : List String → Option String
+  | "c11evalreal" :: args => do
+    let (c, rest) ← ctx? args
+    match rest with
+    | [sc, db, ast, text] => do some (evalReal c (← parseScript sc) (← db? db) ast (← ofHex text))
+    | _ => none
   | "c11eval" :: args => do
     let (c, rest) ← ctx? args
     match rest with
